@@ -11,9 +11,9 @@ SUITE=$(cargo test --workspace --offline 2>&1 | grep "test result" | grep -vc "o
 echo "suite_with_patch_failing_groups=$SUITE"
 cp $OUT/demo.rs $WT/$LOC
 cargo test -p $CR --test demo --offline >/tmp/confirm_$$.log 2>&1; W=$?
-git stash -q -- $(git diff --name-only)
+git apply -R $OUT/patch.diff
 cargo test -p $CR --test demo --offline >/tmp/confirm2_$$.log 2>&1; WO=$?
-git stash pop -q
+git apply $OUT/patch.diff
 rm -f $WT/$LOC
 echo "demo_with_patch_rc=$W demo_without_patch_rc=$WO"
 [ "$SUITE" = "0" ] && [ "$W" != "0" ] && [ "$WO" = "0" ] && echo CONFIRMED || { echo NOT-CONFIRMED; tail -5 /tmp/confirm_$$.log /tmp/confirm2_$$.log; }
